@@ -193,7 +193,7 @@ class Sample(object):
         # derivative. Choosing a time that satisfies the longest half-life seems
         # to work well enough.
         initial = max(-log(target/Ia)/La + To for Ia, La in data if Ia != 0)
-        t, ft = find_root(initial, f, df)
+        t, ft = find_root(max(initial, 0), f, df, tol=1e-9*target)
         percent_error = 100*abs(ft)/target
         if percent_error > 0.1:
             #return 1e100*365*24 # Return 1e100 rather than raising an error
